@@ -265,6 +265,114 @@ def find_variance_violation(e, te, re_, a, ta, ra):
 # ---------------------------------------------------------------------------
 
 
+
+# ---------------------------------------------------------------------------
+# phase 3: further entry points
+
+
+def run_protocols(pairs):
+    """(e, a) untyped.  Protocol P with method m(self, <e>); class Impl with m(self, <a>);
+    `use(Impl())` for `def use(p: P)`.  True = no incompatible_argument reported."""
+    import contextlib
+    import io
+
+    from pyanalyze.error_code import ErrorCode
+    from pyanalyze.test_name_check_visitor import TestNameCheckVisitorBase
+
+    def mh(sig):
+        h = B.header(sig).replace("('d', '", "('d_', '")
+        return "self" + (", " + h if h else "")
+
+    lines = ["from typing import Protocol"]
+    for i, (e, a) in enumerate(pairs):
+        lines += [f"class P{i}(Protocol):", f"    def m({mh(e)}): ...", f"class I{i}:", f"    def m({mh(a)}): pass", f"def use{i}(p: P{i}): pass"]
+    lines.append("def run():")
+    call_line = {}
+    for i in range(len(pairs)):
+        lines.append(f"    use{i}(I{i}())")
+        call_line[len(lines)] = i
+    buf = io.StringIO()
+    with contextlib.redirect_stderr(buf), contextlib.redirect_stdout(buf):
+        errs = TestNameCheckVisitorBase()._run_str("\n".join(lines) + "\n", fail_after_first=False)
+    verdict = [True] * len(pairs)
+    other = {}
+    for er in errs:
+        i = call_line.get(er["lineno"])
+        if i is not None and er["code"] is ErrorCode.incompatible_argument:
+            verdict[i] = False
+        elif er["code"].name != "method_first_arg":
+            other[er["code"].name] = other.get(er["code"].name, 0) + 1
+    return verdict, other
+
+
+def run_callable_annotations(items):
+    """items: (n or None, a).  `def use(cb: Callable[[int]*n, object])` (None: Callable[..., object]);
+    `use(g)` with g = def g(<a>).  True = no incompatible_argument."""
+    import contextlib
+    import io
+
+    from pyanalyze.error_code import ErrorCode
+    from pyanalyze.test_name_check_visitor import TestNameCheckVisitorBase
+
+    lines = ["from typing import Callable"]
+    for i, (n, a) in enumerate(items):
+        ann = "Callable[..., object]" if n is None else "Callable[[" + ", ".join(["int"] * n) + "], object]"
+        lines += [f"def g{i}({B.header(a).replace(chr(39) + 'd' + chr(39) + ', ', chr(39) + 'd_' + chr(39) + ', ')}): pass", f"def use{i}(cb: {ann}): pass"]
+    lines.append("def run():")
+    call_line = {}
+    for i in range(len(items)):
+        lines.append(f"    use{i}(g{i})")
+        call_line[len(lines)] = i
+    buf = io.StringIO()
+    with contextlib.redirect_stderr(buf), contextlib.redirect_stdout(buf):
+        errs = TestNameCheckVisitorBase()._run_str("\n".join(lines) + "\n", fail_after_first=False)
+    verdict = [True] * len(items)
+    other = {}
+    for er in errs:
+        i = call_line.get(er["lineno"])
+        if i is not None and er["code"] is ErrorCode.incompatible_argument:
+            verdict[i] = False
+        else:
+            other[er["code"].name] = other.get(er["code"].name, 0) + 1
+    return verdict, other
+
+
+UNNAMED = ["p0", "p1", "p2", "p3"]
+for _i, _n in enumerate(UNNAMED):
+    B.CODE.setdefault(_n, 9 + _i)
+    B.UNCODE.setdefault(9 + _i, _n)
+
+
+def callable_expected_sig(n):
+    """the model's reading of Callable[[T1..Tn], R]: n unnamed positional-only parameters"""
+    return [[UNNAMED[i], PO, 0] for i in range(n)]
+
+
+def impl_callable_annotation(n, fa):
+    """CallableValue built from the runtime annotation -> accepts KnownValue(fa)?"""
+    from typing import Callable
+
+    from pyanalyze.annotations import type_from_runtime
+    from pyanalyze.value import CanAssignError
+
+    I = B._impl()
+    ann = Callable[..., object] if n is None else Callable[[int] * n, object]
+    cv = type_from_runtime(ann)
+    return not isinstance(cv.can_assign(I["V"].KnownValue(fa), I["ck"]), CanAssignError)
+
+
+def impl_overloads(es, as_):
+    I = B._impl()
+    S = I["S"]
+    from pyanalyze.value import CanAssignError
+
+    def mk(sigs):
+        objs = [B.impl_signature(s) for s in sigs]
+        return objs[0] if len(objs) == 1 else S.OverloadedSignature(objs)
+
+    return not isinstance(mk(es).can_assign(mk(as_), I["ck"]), CanAssignError)
+
+
 def enc_pair(e, a):
     return "C" + B.enc_sig(e) + "|" + B.enc_sig(a)
 
@@ -452,30 +560,99 @@ def run(tier: str, replay: str | None = None):
             if v is not None:
                 failing.append((payload, "accepted", "variance violated under the membership model: " + json.dumps(v)))
 
-    # ---- entry points and overrides on a sample
+    # ---- entry points: CallableValue / KnownValue(function) on EVERY pair; overrides and protocols on samples
     ep_bad, ov_bad, ov_other = [], [], {}
-    n_ep = n_ov = n_ov_rej = 0
+    pr_bad, pr_other = [], {}
+    n_ep = n_ov = n_ov_rej = n_pr = n_pr_rej = 0
+    direct_cache = {}
     if pairs:
-        sample = [pairs[i] for i in sorted(rng.sample(range(len(pairs)), min(len(pairs), 600 if not thorough else 4000)))]
-        for e, a in sample:
+        for e, a in pairs:
             fe, fa = B.real_function(e), B.real_function(a)
             direct = impl_accepts(B.impl_signature(e), B.impl_signature(a))
+            direct_cache[(json.dumps(e), json.dumps(a))] = direct
             r1, r2 = impl_entry_points(fe, fa)
             n_ep += 1
             if r1 != direct or r2 != direct:
                 ep_bad.append({"input": {"e": e, "a": a, "text": pair_text(e, a)}, "Signature.can_assign": direct, "CallableValue.can_assign": r1, "KnownValue.can_assign": r2})
-        osample = sample[: 300 if not thorough else 1500]
-        for k in range(0, len(osample), 100):
-            chunk = osample[k : k + 100]
+        sample = [pairs[i] for i in sorted(rng.sample(range(len(pairs)), min(len(pairs), 1200 if not thorough else 6000)))]
+        for k in range(0, len(sample), 150):
+            chunk = sample[k : k + 150]
             vs, other = run_overrides(chunk)
             for key, val in other.items():
                 ov_other[key] = ov_other.get(key, 0) + val
             for (e, a), ok in zip(chunk, vs):
                 n_ov += 1
                 n_ov_rej += int(not ok)
-                direct = impl_accepts(B.impl_signature(e), B.impl_signature(a))
+                direct = direct_cache[(json.dumps(e), json.dumps(a))]
                 if ok != direct:
                     ov_bad.append({"input": {"e": e, "a": a, "text": pair_text(e, a)}, "Signature.can_assign": direct, "override_check_accepts": ok})
+        psample = sample[: 600 if not thorough else 3000]
+        for k in range(0, len(psample), 150):
+            chunk = psample[k : k + 150]
+            vs, other = run_protocols(chunk)
+            for key, val in other.items():
+                pr_other[key] = pr_other.get(key, 0) + val
+            for (e, a), ok in zip(chunk, vs):
+                n_pr += 1
+                n_pr_rej += int(not ok)
+                direct = direct_cache[(json.dumps(e), json.dumps(a))]
+                if ok != direct:
+                    pr_bad.append({"input": {"e": e, "a": a, "text": pair_text(e, a)}, "Signature.can_assign": direct, "protocol_check_accepts": ok})
+
+    # ---- Callable[[T1..Tn], R] and Callable[..., R] as the expected type
+    ca_items, ca_corr, ca_e2e_bad = [], [], []
+    n_ca = n_ca_acc = n_ellipsis = n_ca_e2e = 0
+    ca_other = {}
+    if pairs and not replay:
+        ca_items = [(rng.choice([0, 1, 1, 2, 2, 3]), a) for _, a in pairs[:: 2 if not thorough else 1]]
+        ca_model = lib.ocaml_run(exe, [enc_pair(callable_expected_sig(n), a) for n, a in ca_items]) if exe is not None else [None] * len(ca_items)
+        for (n, a), ml in zip(ca_items, ca_model):
+            fa = B.real_function(a)
+            acc = impl_callable_annotation(n, fa)
+            n_ca += 1
+            n_ca_acc += int(acc)
+            payload = {"e": callable_expected_sig(n), "a": a, "text": f"Callable[[{', '.join(['int'] * n)}], object]  <-  def g({B.header(a)})"}
+            if ml is not None:
+                mk, _, guard = parse_model(ml)
+                if mk != acc:
+                    ca_corr.append({"input": payload, "model": mk, "impl": acc})
+            if acc and not B.cpython_binds(fa, n, []):
+                failing.append((payload, f"accepted for Callable[[{n} parameters], ...]", f"g raises TypeError when called with {n} positional arguments"))
+            if not impl_callable_annotation(None, fa):
+                failing.append(({"e": [], "a": a, "text": f"Callable[..., object]  <-  def g({B.header(a)})"}, "rejected", "Callable[..., R] is compatible with every callable"))
+            n_ellipsis += 1
+        esample = ca_items[: 300 if not thorough else 1500] + [(None, a) for _, a in ca_items[:60]]
+        for k in range(0, len(esample), 150):
+            chunk = esample[k : k + 150]
+            vs, other = run_callable_annotations(chunk)
+            for key, val in other.items():
+                ca_other[key] = ca_other.get(key, 0) + val
+            for (n, a), ok in zip(chunk, vs):
+                n_ca_e2e += 1
+                direct = impl_callable_annotation(n, B.real_function(a))
+                if ok != direct:
+                    ca_e2e_bad.append({"input": {"n": n, "a": a, "text": f"use(g) for def g({B.header(a)})"}, "type_from_runtime route": direct, "module accepts": ok})
+
+    # ---- overloads on either side
+    ov2_corr = []
+    n_ov2 = n_ov2_acc = 0
+    if pairs and not replay and exe is not None:
+        groups = []
+        for j in range(1500 if not thorough else 12000):
+            e0 = B.random_sig(rng, 3)
+            es = [e0] + ([mutate_sig(rng, e0) or e0] if rng.random() < 0.5 else [])
+            as_ = [(mutate_sig(rng, e0) if rng.random() < 0.8 else B.random_sig(rng, 3)) or e0 for _ in range(rng.choice([1, 2, 2]))]
+            groups.append((es, as_))
+        lines = [enc_pair(e, a) for es, as_ in groups for e in es for a in as_]
+        outs = iter(lib.ocaml_run(exe, lines))
+        for es, as_ in groups:
+            table = {(i, j): parse_model(next(outs))[0] for i in range(len(es)) for j in range(len(as_))}
+            mk = all(any(table[(i, j)] for j in range(len(as_))) for i in range(len(es)))
+            acc = impl_overloads(es, as_)
+            n_ov2 += 1
+            n_ov2_acc += int(acc)
+            if mk != acc:
+                ov2_corr.append({"input": {"es": es, "as": as_, "text": " | ".join(B.header(x) for x in es) + "  <-  " + " | ".join(B.header(x) for x in as_)}, "model": mk, "impl": acc})
 
     # ---- verdicts
     for payload, obs, exp in failing[:10]:
@@ -489,6 +666,14 @@ def run(tier: str, replay: str | None = None):
         rep.violation({"kind": "broken-correspondence", "correspondence": "Signature.can_assign vs CallableValue.can_assign / KnownValue(function).can_assign", **ep_bad[0]}, no_failing_input=True)
     if ov_bad and not found:
         rep.violation({"kind": "broken-correspondence", "correspondence": "Signature.can_assign vs override check (incompatible_override)", **ov_bad[0]}, no_failing_input=True)
+    if pr_bad and not found:
+        rep.violation({"kind": "broken-correspondence", "correspondence": "Signature.can_assign vs protocol method compatibility (incompatible_argument)", **pr_bad[0]}, no_failing_input=True)
+    if ca_corr and not found:
+        rep.violation({"kind": "broken-correspondence", "correspondence": "SigAssign.sca with n unnamed positional-only parameters vs CallableValue from Callable[[...], R]", **ca_corr[0]}, no_failing_input=True)
+    if ca_e2e_bad and not found:
+        rep.violation({"kind": "broken-correspondence", "correspondence": "Callable[...] annotation: type_from_runtime route vs module diagnostics", **ca_e2e_bad[0]}, no_failing_input=True)
+    if ov2_corr and not found:
+        rep.violation({"kind": "broken-correspondence", "correspondence": "SigAssign.ov_kinds_ok (forall expected overload exists actual overload) vs can_assign on OverloadedSignature", **ov2_corr[0]}, no_failing_input=True)
     if broken_translation and not found:
         rep.violation({"kind": "broken-obligation", "theorem": "Gen/Kinds.v, Gen/BinderShape.v (translators harness/translate/kinds.py, binder.py)", "detail": broken_translation}, no_failing_input=True)
     if proof is not None and not proof.ok and not found:
@@ -497,7 +682,7 @@ def run(tier: str, replay: str | None = None):
         rep.harness_error("specification PyBind.py_bind disagrees with CPython on " + json.dumps(sb))
 
     rep.coverage.update(
-        evaluations=len(pairs) + len(typed) + n_spec + n_ep + n_ov,
+        evaluations=len(pairs) + len(typed) + n_spec + n_ep + n_ov + n_pr + n_ca + n_ca_e2e + n_ov2,
         distinct_nontrivial=len(distinct),
         rule="a case = (expected signature e, actual signature a): every def-expressible e with <=2 parameters x a sample (thorough: all) of the <=2-parameter signatures over names {a,b,c}; "
         "random e with <=5 parameters paired with an independent random a (1/4) or an edit of e (kind change, default flip, added optional/*args/**kwargs, dropped, renamed or swapped parameter); "
@@ -515,6 +700,20 @@ def run(tier: str, replay: str | None = None):
         entry_point_mismatches=len(ep_bad),
         overrides_checked=n_ov,
         overrides_rejected=n_ov_rej,
+        protocols_checked=n_pr,
+        protocols_rejected=n_pr_rej,
+        protocol_mismatches=len(pr_bad),
+        protocol_other_codes=pr_other,
+        callable_annotation_pairs=n_ca,
+        callable_annotation_accepted=n_ca_acc,
+        callable_annotation_mismatches=len(ca_corr),
+        callable_ellipsis_checked=n_ellipsis,
+        callable_annotation_modules=n_ca_e2e,
+        callable_annotation_module_mismatches=len(ca_e2e_bad),
+        callable_annotation_other_codes=ca_other,
+        overload_groups=n_ov2,
+        overload_groups_accepted=n_ov2_acc,
+        overload_mismatches=len(ov2_corr),
         override_mismatches=len(ov_bad),
         override_other_codes=ov_other,
         exhaustive=False,
